@@ -47,7 +47,8 @@ class LongPoll(object):
     def start(self):
         """Start the long poll service."""
         logging.info("Starting Long Poll system")
-        self.timer = RepeatedTimer("Tracepoint Long Poll", self.config.POLL_TIMER, self.poll)
+        # the value is text when it comes from the environment (DEEP_POLL_TIMER), the timer needs a number
+        self.timer = RepeatedTimer("Tracepoint Long Poll", float(self.config.POLL_TIMER), self.poll)
         self.__initial_poll()
         self.timer.start()
 
